@@ -231,8 +231,38 @@ def run(prop, tier):
             for line in f:
                 g.write(line)
         res, nev = _validate(out, trace, "c11tv")
-        out.traces = nev
-        out.evaluations = total + nrnd
+        # one attribute node moved between elements with different declared types (AttrMove.tla): the value follows
+        # the type declared for the CURRENT owner, whatever was read before
+        amr = os.path.join(wd, "am.replay")
+        ammc = C.run_tlc("MC_AttrMove", "MC_AttrMove_%s.cfg" % tier, "ammc", to_file=amr, workers=4, timeout=900,
+                         keep_tags=["REPLAY"])
+        C.tlc_must_pass(ammc, "MC_AttrMove")
+        out.add_tlc(ammc)
+        amt = os.path.join(wd, "am.trace")
+        so = C.run_harness(["dom-attrmove", "--in", amr, "--out", amt])
+        am_sessions = json.loads(so.strip().splitlines()[-1])["sessions"]
+        cfgname = "Trace_AttrMove.%d.cfg" % os.getpid()
+        cfgp = os.path.join(C.SPEC, cfgname)
+        C.write_cfg(cfgp, ["SPECIFICATION TSpec", "CONSTANT MaxLen = 6", "CONSTANT Open = %s" % C.tla_set(out.open.keys()),
+                           "POSTCONDITION Done", "CHECK_DEADLOCK FALSE"])
+        try:
+            r2 = C.run_tlc("Trace_AttrMove", cfgname, "amtv", env={"TRACE": amt}, workers=1, deque=True, timeout=900)
+        finally:
+            os.unlink(cfgp)
+        C.tlc_must_pass(r2, "Trace_AttrMove")
+        if r2.distinct != C.count_lines(amt) + 1:
+            raise C.ToolError("attribute-move validation visited %d states for %d events" % (r2.distinct, C.count_lines(amt)))
+        am_events = None
+        for tg, v in r2.lines:
+            if tg == "TRUNCATED":
+                raise C.ToolError("attribute-move validation truncated")
+            if tg == "VERDICT":
+                if am_events is None:
+                    am_events = C.read_ndjson(amt)
+                out.verdict(v, am_events[v["i"] - 1])
+        out.extra["attribute_move_sessions"] = am_sessions
+        out.traces = nev + am_sessions
+        out.evaluations = total + nrnd + am_sessions
         # evidence: non-trivial = the literal has a reference or white space, or the case is defaulted
         with open(obs) as f:
             for line in f:
